@@ -1,1 +1,129 @@
-/-! # C03 — property theorems (not built yet) -/
+import PysphVerif.Lemmas.Schedule
+/-!
+# C03 — groups run in the documented order, over the documented particles
+
+Property theorems only (helper lemmas live in `Lemmas/Schedule.lean`).  They are about
+`Model/Schedule.lean`:
+
+* `implTrace` transcribes `MegaGroup._make_data`, the mako template (`do_group`, the body of
+  `compute`) and the helper's index-range / iteration / condition code;
+* `specTrace` is the documented order, sentence by sentence.
+
+`implTrace` is tied to the real pipeline (AccelerationEval → SPHCompiler → generated Cython →
+compiled module) on every run by tracer equations (harness/c03.py).
+
+All statements hold for every program (any number of groups, sub-groups, destinations, sources,
+equations with any subset of hooks), every oracle — condition and convergence outcomes, array
+sizes, named start/stop values and neighbour lists may depend arbitrarily on the history of calls
+made so far — and every starting history.
+-/
+set_option linter.unusedSectionVars false
+namespace PysphVerif.C03
+open PysphVerif.Schedule
+
+/-! ## `MegaGroup._make_data` preserves the user's order -/
+
+/-- The regrouping by destination, then by source, is a family of plain `filter`s of the user's
+equation list (so user order is kept everywhere), destinations and sources appear in order of
+first appearance. -/
+theorem megagroup_preserves_order (eqs : List Equation) (hnd : eqs.Nodup)
+    (hs : ∀ e ∈ eqs, e.sources.Nodup) :
+    (makeData eqs).map (·.1) = firstAppearance (eqs.map (·.dest)) ∧
+    ∀ d, (makeDest eqs d).all = eqs.filter (fun e => e.dest == d) ∧
+      (makeDest eqs d).noSrc = eqs.filter (fun e => e.dest == d && e.noSource) ∧
+      (makeDest eqs d).sources =
+        (firstAppearance ((eqs.filter (fun e => e.dest == d)).flatMap (·.sources))).map
+          (fun s => (s, eqs.filter (fun e => e.dest == d && e.sources.contains s))) := by
+  refine ⟨?_, fun d => ?_⟩
+  · rw [makeData_eq eqs hnd hs, List.map_map]
+    simp [Function.comp_def]
+  · rw [makeDest_eq eqs d hnd hs]
+    simp only [specData, srcDict, dictOf, List.filter_filter]
+    refine ⟨trivial, ?_, ?_⟩
+    · apply List.filter_congr; intro e _; exact Bool.and_comm _ _
+    · apply List.map_congr_left; intro s _
+      congr 1
+      apply List.filter_congr; intro e _; exact Bool.and_comm _ _
+
+/-- Without any hypothesis: every list the template iterates over is a sub-list (same relative
+order) of what the user wrote. -/
+theorem megagroup_sublists (eqs : List Equation) (d : Nat) :
+    (makeDest eqs d).all.Sublist eqs ∧ (makeDest eqs d).noSrc.Sublist eqs := by
+  suffices h : ∀ (l p : List Equation) (dd : DestData), dd.all.Sublist p → dd.noSrc.Sublist p →
+      (l.foldl (destDataStep d) dd).all.Sublist (p ++ l) ∧
+      (l.foldl (destDataStep d) dd).noSrc.Sublist (p ++ l) by
+    simpa [makeDest] using h eqs [] ⟨[], [], []⟩ (by simp) (by simp)
+  intro l
+  induction l with
+  | nil => intro p dd h1 h2; simpa using ⟨h1, h2⟩
+  | cons e l ih =>
+    intro p dd h1 h2
+    have := ih (p ++ [e]) (destDataStep d dd e)
+    simp only [List.append_assoc, List.singleton_append] at this
+    simp only [List.foldl_cons]
+    apply this
+    · unfold destDataStep
+      by_cases hd : (e.dest != d) = true
+      · simp only [hd, if_true]; exact h1.trans (List.sublist_append_left _ _)
+      · simp only [hd, Bool.false_eq_true, if_false]
+        by_cases hc : dd.all.contains e = true <;> by_cases hn : e.noSource = true <;>
+          simp only [hc, hn, if_true, Bool.false_eq_true, if_false]
+        all_goals first
+          | exact h1.trans (List.sublist_append_left _ _)
+          | exact List.Sublist.append h1 (List.Sublist.refl _)
+    · unfold destDataStep
+      by_cases hd : (e.dest != d) = true
+      · simp only [hd, if_true]; exact h2.trans (List.sublist_append_left _ _)
+      · simp only [hd, Bool.false_eq_true, if_false]
+        by_cases hn : e.noSource = true <;> simp only [hn, if_true, Bool.false_eq_true, if_false]
+        · exact List.Sublist.append h2 (List.Sublist.refl _)
+        · exact h2.trans (List.sublist_append_left _ _)
+
+/-! ## The generated evaluation performs exactly the documented sequence of calls -/
+
+/-- For every well-formed program, every oracle and enough fuel for the iterated groups, the
+calls made by the generated `compute` are exactly the documented ones, in the documented order.
+(`Program.WF`: no equation object twice in a group, no source named twice in one equation,
+`1 ≤ max_iterations`, `min_iterations ≤ max_iterations` for iterated groups, a top-level group
+without equations has no callables — see the theorems below for what happens otherwise.) -/
+theorem implTrace_eq_specTrace (O : Oracle) (P : Program) (hwf : P.WF) (fuel : Nat)
+    (hfuel : ∀ g ∈ specGroups P, g.maxIter ≤ fuel) :
+    implTrace O fuel P = specTrace O P := by
+  unfold implTrace specTrace
+  rw [implRun_eq_specRun O fuel P hwf hfuel]
+
+/-- The same from any starting history (a second `compute`, a later stage, …). -/
+theorem implRun_eq_specRun_from (O : Oracle) (P : Program) (hwf : P.WF) (fuel : Nat)
+    (hfuel : ∀ g ∈ specGroups P, g.maxIter ≤ fuel) (h : Hist) :
+    implRun O fuel P h = specRun O P h :=
+  implRun_eq_specRun O fuel P hwf hfuel h
+
+/-! ## Destination indices -/
+
+/-- `N` is `stop_idx` if given (number or named), else the number of real particles, or of all
+particles when `real=False`. -/
+theorem np_dest (O : Oracle) (h : Hist) (a : Attrs) (d : Nat) :
+    npDest O h a d =
+      match a.stop with
+      | some (.num n) => n
+      | some (.named k) => O.named h d k
+      | none => if a.real then O.size h d true else O.size h d false := by
+  unfold npDest
+  cases a.stop with
+  | none => cases a.real <;> rfl
+  | some s => cases s <;> rfl
+
+/-- Destination indices are exactly `range(start_idx, N)`. -/
+theorem dest_range (O : Oracle) (h : Hist) (a : Attrs) (d i : Nat) :
+    i ∈ destRange O h a d ↔ startIdx O h a d ≤ i ∧ i < npDest O h a d := by
+  unfold destRange
+  rw [List.mem_range'_1]
+  omega
+
+/-- …in increasing order, each once. -/
+theorem dest_range_sorted (O : Oracle) (h : Hist) (a : Attrs) (d : Nat) :
+    (destRange O h a d).Pairwise (· < ·) := by
+  unfold destRange
+  exact List.pairwise_lt_range'
+
+end PysphVerif.C03
